@@ -110,7 +110,7 @@ def check_constructors(prog, rep, eng):
         txt = field_of(st, "formula_str") if ok else None
         uvars = [(v["name"], {pn[1]: ("ctor", "preprocessing::operator_enums::UnaryOp::" + v["name"], ())})
                  for v in prog.adts.get("preprocessing::operator_enums::UnaryOp", {}).get("variants", [])]
-        check_template(rep, "mk_unary", f, txt, [op, child], variants=uvars)
+        check_template(rep, "mk_unary", f, txt, [op, child], variants=uvars, prog=prog)
         nt = field_of(st, "node_type") if ok else None
         rep.check(nt is not None and nt[0] == "ctor" and str(nt[1]).endswith("NodeType::Unary") and nt[2] == (op, child), "C06-R3", "mk_unary/node_type",
                   f"{f.file}:{f.line}", "node_type = Unary(op, child)", f"node_type is {sem.short(nt, 100)}")
@@ -140,7 +140,7 @@ def check_constructors(prog, rep, eng):
         txt = field_of(st, "formula_str") if ok else None
         bvars = [(v["name"], {pn[2]: ("ctor", "preprocessing::operator_enums::BinaryOp::" + v["name"], ())})
                  for v in prog.adts.get("preprocessing::operator_enums::BinaryOp", {}).get("variants", [])]
-        check_template(rep, "mk_binary", f, txt, [left, op, right], variants=bvars)
+        check_template(rep, "mk_binary", f, txt, [left, op, right], variants=bvars, prog=prog)
         nt = field_of(st, "node_type") if ok else None
         rep.check(nt is not None and nt[0] == "ctor" and str(nt[1]).endswith("NodeType::Binary") and nt[2] == (op, left, right), "C06-R3",
                   "mk_binary/node_type", f"{f.file}:{f.line}", "node_type = Binary(op, left, right)", f"node_type is {sem.short(nt, 100)}")
@@ -165,7 +165,7 @@ def check_constructors(prog, rep, eng):
             for dname, dval in (("no-domain", ("ctor", "std::prelude::v1::None", ())), ("domain", ("ctor", "std::prelude::v1::Some", (label,)))):
                 opc = ("ctor", "preprocessing::operator_enums::HybridOp::" + v["name"], ())
                 mapping = {pn[3]: opc, pn[2]: dval}
-                pieces = text_pieces(txt, mapping) if txt else []
+                pieces = text_pieces(txt, mapping, prog, f) if txt else []
                 want = ["(", ("arg", opc), "{", ("arg", var), "}"] + ([" in %", ("arg", label), "%"] if dname == "domain" else []) + [": ", ("arg", child), ")"]
                 wshape = tuple(p if isinstance(p, str) else "{}" for p in render.merge(want))
                 wargs = [p[1] for p in want if isinstance(p, tuple)]
@@ -182,14 +182,26 @@ def check_constructors(prog, rep, eng):
     rep.floor("C06-R3", 26)
 
 
-def text_pieces(txt, mapping):
+_PENG = {}
+
+
+def text_pieces(txt, mapping, prog=None, f=None):
+    """Pieces of formula_str when some constructor parameters are concrete: the constructor (helpers of the module inlined) is
+    partially evaluated for them; falls back to substitution into the general summary."""
     import partial
     import render
+    if prog is not None and f is not None and mapping:
+        eng = _PENG.setdefault(id(prog), terms.Engine(prog, inline=True, hooks=E.Hooks(["preprocessing::hctl_tree::"])))
+        sp = eng.specialise(f, dict(mapping))
+        if sp is not None and sp.ret is not None and sp.ret[0] == "struct":
+            t = field_of(sp.ret, "formula_str")
+            if t is not None:
+                return render.string_pieces(t)
     t = partial.simplify(terms.subst(txt, mapping))
     return render.string_pieces(t)
 
 
-def check_template(rep, name, f, txt, components, variants=None, enum=None):
+def check_template(rep, name, f, txt, components, variants=None, enum=None, prog=None):
     """formula_str, specialised for every operator variant, is one pair of parentheses around the components in order."""
     import render
     if txt is None:
@@ -197,7 +209,7 @@ def check_template(rep, name, f, txt, components, variants=None, enum=None):
         return
     cases = variants or [(None, {})]
     for vname, mapping in cases:
-        pieces = text_pieces(txt, mapping)
+        pieces = text_pieces(txt, mapping, prog, f)
         args = [p[1] for p in pieces if isinstance(p, tuple)]
         comps = [terms.subst(c, mapping) for c in components]
         lits = "".join(p for p in pieces if isinstance(p, str))
@@ -302,6 +314,13 @@ def check_spelling(prog, rep, eng):
         pieces = render.printed(prog, "Atomic", ("ctor", "preprocessing::operator_enums::Atomic::" + v["name"], arg))
         if pieces is not None and all(isinstance(p, str) or p[1] == ("param", "#name") for p in pieces):
             shapes[v["name"]] = render.shape(pieces)
+    import c05
+    _, consts = c05.parser_constants(prog)
+    for v, val in (("True", True), ("False", False)):
+        text = "".join(shapes.get(v, ("?",))) if all(isinstance(x, str) for x in shapes.get(v, ())) else None
+        rep.check(text is not None and text in consts[val] and text not in consts[not val], "C06-R4", f"Atomic::{v}/parsed-back", f"{fn.file}:{fn.line}",
+                  f"the printed constant `{text}` is read back as the constant {str(val).lower()}",
+                  f"Atomic::{v} prints as `{text}`, but the parser maps only {sorted(consts[val])} to {str(val).lower()}: a printed tree containing the constant is parsed back as a proposition named `{text}`")
     want = {"Var": ("{", "{}", "}"), "Prop": ("{}",), "True": ("True",), "False": ("False",), "WildCardProp": ("%", "{}", "%")}
     for v, w in want.items():
         rep.check(shapes.get(v) == w, "C06-R4", f"Atomic::{v}", f"{fn.file}:{fn.line}", f"prints as {''.join(w)}",
